@@ -289,6 +289,84 @@ theorem contains_override_eq_spec (sp : Spec) (v : Ver) (wild : Bool) (c : Ver)
     Except.bind, pure, Except.pure]
   exact compare_eq_spec sp v wild c hcl wc
 
+/-! ### from `Specifier._spec` to `Clause`: the decidable reading `Pep440.readClause` -/
+
+theorem endsWith_split (s : Str) (h : endsWith s [46, 42] = true) : ∃ t, s = t ++ [46, 42] := by
+  unfold endsWith at h
+  have hr : s = s.reverse.reverse := (List.reverse_reverse s).symm
+  cases hs : s.reverse with
+  | nil => rw [hs] at h; simp [startsWith] at h
+  | cons a t1 =>
+    cases t1 with
+    | nil => rw [hs] at h; simp [startsWith] at h
+    | cons b t2 =>
+      rw [hs] at h; simp [startsWith] at h
+      obtain ⟨ha, hb⟩ := h; subst ha; subst hb
+      refine ⟨t2.reverse, ?_⟩
+      rw [hr, hs]; simp
+
+/-- whatever `readClause` accepts is a clause in the sense of `contains_eq_spec` -/
+theorem readClause_sound (sp : Spec) (v : Ver) (w : Bool) (h : readClause sp = some (v, w)) : Clause sp v w := by
+  obtain ⟨op, raw⟩ := sp
+  unfold readClause at h
+  by_cases hop : op = .arbitrary
+  · subst hop
+    simp at h
+    obtain ⟨rfl, rfl⟩ := h
+    exact .arbitrary raw _
+  · have hop' : (op == S.Op.arbitrary) = false := by simpa using hop
+    simp only [hop', Bool.false_eq_true, if_false] at h
+    cases hw : ((op == S.Op.eq || op == S.Op.ne) && endsWith raw [46, 42]) with
+    | true =>
+      simp only [hw, if_true] at h
+      cases hs : scan (raw.take (raw.length - 2)) with
+      | none => simp [hs] at h
+      | some v' =>
+        simp only [hs] at h
+        split at h
+        · rename_i hc
+          simp only [Option.some.injEq, Prod.mk.injEq] at h
+          obtain ⟨rfl, rfl⟩ := h
+          simp only [Bool.and_eq_true, Bool.or_eq_true, beq_iff_eq] at hw
+          obtain ⟨t, ht⟩ := endsWith_split raw hw.2
+          subst ht
+          rw [take_wild] at hs
+          simp only [Bool.not_true, Bool.false_or, Bool.and_eq_true, Option.isNone_iff_eq_none] at hc
+          exact .wild op t v' hw.1 hs ⟨hc.1.1.1.1.1.1, hc.1.1.1.1.1.2, hc.1.1.1.1.2, hc.1.1.1.2⟩
+        · cases h
+    | false =>
+      simp only [hw, Bool.false_eq_true, if_false] at h
+      cases hs : scan raw with
+      | none => simp [hs] at h
+      | some v' =>
+        simp only [hs] at h
+        split at h
+        · rename_i hc
+          simp only [Option.some.injEq, Prod.mk.injEq] at h
+          obtain ⟨rfl, rfl⟩ := h
+          simp only [Bool.not_false, Bool.true_or, Bool.true_and, Bool.false_or, Bool.and_eq_true,
+            Bool.or_eq_true, beq_iff_eq, bne_iff_ne, ne_eq, decide_eq_true_eq, Bool.not_eq_true',
+            Option.isNone_iff_eq_none] at hc
+          refine .plain op raw v' hop hs hc.1.1 ?_ ?_
+          · intro hl
+            rcases hc.1.2 with (h1 | h1) | h1
+            · exact absurd h1 hl
+            · exact .inl h1
+            · exact .inr h1
+          · intro hcomp
+            rcases hc.2 with h1 | h1
+            · exact absurd hcomp h1
+            · exact h1
+        · cases h
+
+/-- **C03, from the strings.**  `Specifier(s).contains(cs, prereleases=True)` for a clause string `s` that
+`Specifier` accepts and whose stored text reads as a clause (`readClause`; measured on every generated clause by
+the `spec.clause` correspondence), and any candidate string `cs` that `Version` accepts. -/
+theorem contains_eq_spec_strings (s cs : Str) (sp : Spec) (v : Ver) (w : Bool) (c : Ver) (override : Option Bool)
+    (_hp : parseSpec s = some sp) (hr : readClause sp = some (v, w)) (hc : scan cs = some c) :
+    sp.contains override c (some true) = .ok (admits sp.op v w sp.ver c) :=
+  contains_eq_spec sp v w c override (readClause_sound sp v w hr) (scan_wf cs c hc)
+
 /-! ### non-vacuity: concrete clauses and candidates on every branch -/
 
 def mk (rel : List Nat) (pre : Option (PreL × Nat) := none) (post dev : Option Nat := none)
@@ -331,5 +409,10 @@ example : okFalse ((⟨.lt, ofString "1.0"⟩ : Spec).compare (mk [1, 0] (dev :=
           okTrue ((⟨.gt, ofString "1.0.post1"⟩ : Spec).compare (mk [1, 0] (post := some 2))) = true := by
   decide +kernel
 example : WF (mk [1, 0] (post := some 2) (loc := some [.str [120]])) := by decide
+-- the hypotheses of `contains_eq_spec_strings` on a clause with white space, `v`, epoch and wildcard
+example : parseSpec (ofString " == v1!1.00.* ") = some ⟨.eq, ofString "v1!1.00.*"⟩ ∧
+          readClause ⟨.eq, ofString "v1!1.00.*"⟩ = some (mk [1, 0] (epoch := 1), true) ∧
+          scan (ofString "1!1.0.5rc1+X") = some (mk [1, 0, 5] (pre := some (.rc, 1)) (loc := some [.str [120]]) (epoch := 1)) := by
+  decide +kernel
 
 end C03
